@@ -37,6 +37,9 @@ def layouts(text, seed):
         hs.append([['rainbow', text], ['apply', R['W'], s, e, True]])
     for k in range(1, L):
         hs.append([['plain', text], ['apply', R['R'], 0, k, True], ['apply', R['R'], k, L, True]])
+    for k in range(1, L):
+        hs.append([['plain', text], ['apply', R['W'], 0, k, True], ['apply', R['W'], 0, L, True]])
+        hs.append([['rainbow', text], ['apply', R['W'], 0, L, True], ['apply', R['W'], k, L, True]])
     if L:
         hs.append([['plain', text], ['apply', R['B'], 0, max(1, L - 1), True]])
         hs.append([['plain', text], ['apply', R['B'], min(1, L - 1), L, True]])
